@@ -957,6 +957,67 @@ def rule_default_kept(chk, cls):
                detail_ok='existing property: its own default; new property: 0')
 
 
+def rule_typed_creation(chk, cls):
+    """add_property(name, type=T, data=...): the array created for a new property has the type asked for - it is made by _create_carray(T, ...) and filled - whatever the
+    element type of the data; only when no type is given may the type be read off the data (_create_c_array_from_npy_array, which maps 32-bit integers to `long`).  Shared with
+    C11: the readers re-create every property with the type recorded in the file."""
+    ap0 = M.methods(cls).get('add_property')
+    if ap0 is None:
+        raise AnalysisError('ParticleArray.add_property vanished')
+    keep = set(n_ for n_ in M.methods(cls) if not n_.startswith('_')) | set(['_create_carray', '_create_c_array_from_npy_array', '_check_property'])
+    ap = M.inline_helpers(cls, ap0, keep=keep)
+    M.set_parents(ap)
+    n = 0
+    for a in ast.walk(ap):
+        if not (isinstance(a, ast.Assign) and isinstance(a.targets[0], ast.Subscript) and U(a.targets[0].value) == 'self.properties'):
+            continue
+        # where does the stored array come from (through locals of the same block)
+        v = a.value
+        seen = 0
+        while isinstance(v, ast.Name) and seen < 4:
+            d = preceding_assign(ap, v.id, a)
+            if d is None:
+                break
+            v = d.value
+            seen += 1
+        src = (M.call_name(v) or '') if isinstance(v, ast.Call) else ''
+        if not src.startswith('self._create_c'):
+            continue
+        n += 1
+        # is `data_type is None` established on the way to this statement?
+        none_known = False
+        node = a
+        while node is not ap:
+            par = node.parent
+            if isinstance(par, ast.If):
+                t_ = par.test
+                side = True if node in par.body else (False if node in par.orelse else None)
+                atoms = []
+
+                def add(t, truth):
+                    while isinstance(t, ast.UnaryOp) and isinstance(t.op, ast.Not):
+                        t, truth = t.operand, not truth
+                    if isinstance(t, ast.BoolOp) and ((isinstance(t.op, ast.Or) and not truth) or (isinstance(t.op, ast.And) and truth)):
+                        for x in t.values:
+                            add(x, truth)
+                    else:
+                        atoms.append((U(t).replace(' ', ''), truth))
+                if side is not None:
+                    add(t_, side)
+                for txt, tr in atoms:
+                    if (txt in ('data_typeisNone', 'typeisNone') and tr) or (txt in ('data_typeisnotNone', 'typeisnotNone') and not tr):
+                        none_known = True
+            node = par
+        typed = src == 'self._create_carray' and isinstance(v, ast.Call) and v.args and U(v.args[0]) in ('data_type', 'type')
+        ok = typed or (src == 'self._create_c_array_from_npy_array' and none_known)
+        chk.decide(ok, 'replicated-property-keeps-attributes', 'add_property:array-of-the-type-asked-for@%d' % n, node=a, file=PA, func='add_property',
+                   detail_bad='the array of the new property is made by %s although a type may have been given (`data_type is None` is not established here): an int property given '
+                              '32-bit integer data becomes a LongArray, i.e. its type changes to long - also after a dump / load round trip, which re-creates properties through '
+                              'add_property(type=...)' % src,
+                   detail_ok='typed by the type asked for' if typed else 'type read off the data only when none was given')
+    chk.floor('arrays created for new properties in add_property', n, 3)
+
+
 def rule_count_from_data(chk, cls):
     """add_particles / add_property: where the number of particles is read off the length of the data given for a property, the length is divided by the stride of that
     same property (len(data) // stride): the data of a strided property holds stride values per particle"""
@@ -1106,6 +1167,7 @@ def main(chk):
     rule_empty_clone_model(chk)
     rule_default_kept(chk, cls)
     rule_count_from_data(chk, cls)
+    rule_typed_creation(chk, cls)
     rule_initialize_model(chk)
     # align_particles keeps its index array a permutation (rule shared with C16, which relies on it after removals)
     import importlib.util
